@@ -16,8 +16,9 @@ EXPLANATION = (
     "super() runs element level+1 of the lineage of the topmost matching active block, records level+1 for the nested run and restores "
     "the level on every path; rendering starts from the root ancestor's chunk while the VM's template stays the most-derived one; "
     "(BLOCK) single-block rendering captures on the edge `capture_block == Some(this block)`, stores that buffer and returns it. "
-    "NOT decided: that these pieces compose to the documented output for every chain and nesting (value-level), nor independence from "
-    "registration order beyond C10.DERIVED (derived fields are never read while being computed).")
+    "(DERIVED, shared with C10) lineages and parent chains are written only by the commit and never read by the code that computes them, "
+    "so the result cannot depend on what an earlier registration left behind. NOT decided: that these pieces compose to the documented "
+    "output for every chain and nesting (value-level).")
 NOT_DECIDED = ("the rendered output for arbitrary chains / nestings of blocks and super() calls (value-level composition); registration-order independence "
                "beyond C10.DERIVED")
 ASSUMPTIONS = ["std Vec::reverse / Rev / HashMap entry().or_insert behave as documented"]
@@ -33,6 +34,10 @@ def run(ctx, rep):
         check_lineage(crate, rep, cfg)
         check_vm(crate, rep, cfg)
         check_block(crate, rep, cfg)
+        # "regardless of the order in which the templates were registered": lineages and parent chains are recomputed from the parse-time
+        # definitions and never read back while being computed — the C10.DERIVED inventory, which is as much a clause of this property
+        from props import c10
+        c10.check_derived(crate, rep, cfg)
 
 
 def is_str_lit(body, op, lit):
@@ -334,6 +339,40 @@ def check_block(crate, rep, cfg):
             ok = ok and bool(ol2) and all(l.kind == "param" and "Write" in vm.local_ty(l.detail) for l in ol2)
     rep.add("C04.BLOCK", "C04.BLOCK:vm:capture-the-named-block", ok, vm.where(ws[0][0]) if ws else vm.where(0), "RenderBlock renders into a private buffer exactly on the edge "
             "`capture_block == Some(this block)` and stores that buffer in State.block_buffer; otherwise it renders to the output" + ("" if ok else " — VIOLATED"))
+    # every write instruction prefers the innermost capture buffer over `output`: the private buffer only receives the block's text if
+    # the capture stack is put aside while the block renders (a block may sit in a filter section or a set block), and it must be back
+    # before anything else runs
+    if len(ws) == 1 and len(inner) == 2:
+        capt = [x for x in inner if vm.dominates(x[0], ws[0][0])]
+        ok = len(capt) == 1
+        why = "capture branch not recognised"
+        if ok:
+            cb = capt[0][0]
+            takes = [bb for bb, t in vm.calls(sorted(region)) if callee_def(t).endswith("mem::take") and any(".capture_buffers" in l.projs for l in tr.operand(t["args"][0]))
+                     and vm.dominates(bb, cb)]
+            restores = [bb for bb, idx, rv in field_assigns(vm, ".capture_buffers") if bb in region and cb in vm.reach_from(0) and bb in vm.reach_from(cb)]
+            ok = bool(takes) and bool(restores)
+            why = "the capture stack is not taken before the requested block renders (its text goes to the enclosing filter section / set block and render_block returns nothing)"
+            if ok:
+                # what is put back is what was taken
+                good = []
+                for bb, idx, rv in field_assigns(vm, ".capture_buffers"):
+                    if bb in restores:
+                        ls = tr._rv(rv, (), set(), 0, bb, idx)
+                        if ls and all(l.kind == "call" and l.detail[2] in takes for l in ls):
+                            good.append(bb)
+                heads = {bb for bb, t in find_calls(vm, ["parsing::instructions::Chunk::get"])}
+                reach = vm.reach_from(cb, removed_blocks=frozenset(good))
+                ok = bool(good) and not (reach & heads) and not any(vm.term(x)["k"] == "return" for x in reach)
+                why = "the capture stack taken for the requested block is not put back on every path"
+                # ... and the text is handed on to the capture it belongs to (so an enclosing filter sees what it sees in the full render)
+                if ok:
+                    fw = [bb for bb, t in vm.calls(sorted(region)) if callee_def(t).endswith("::extend_from_slice") and any(vm.dominates(g, bb) for g in good)]
+                    ok = bool(fw)
+                    why = "the captured text is not handed on to the enclosing capture"
+        rep.add("C04.BLOCK", "C04.BLOCK:vm:capture-stack-aside", ok, vm.where(capt[0][0]) if capt else vm.where(0), "while the requested block renders into its private buffer the capture "
+                "stack is put aside (mem::take), put back on every path before the next instruction or a return, and the text is then appended to the innermost enclosing capture"
+                + ("" if ok else " — VIOLATED: " + why))
     writers = sorted({crate.root_of(a["body"]).path for a in field_accesses(crate, "vm::state::State", "block_buffer")
                       if a["kind"] not in ("read",) and not (a["kind"] == "call" and not a["mut"])})
     ok = set(writers) <= {VM, "vm::state::State::<'t>::new"}
